@@ -105,6 +105,17 @@ async def run_history(loop: vclock.VLoop, hist: dict) -> dict:
     else:
         gwy, port = await stack.make_gateway(eth, config=cfg, known_list=hist.get("known_list"), schema=hist.get("schema"))
     obs["gwy_id"] = port.gwy_id
+    watched: list[tuple[Any, str]] = []
+    if hist.get("watch_payloads"):
+        # an application handler (runs after Gateway._msg_handler, as every added handler does): what it was handed is recorded, and
+        # compared at the end with what the same Message object then says (C05: a decoded payload does not change afterwards)
+        def _watch(msg: Any) -> None:
+            try:
+                watched.append((msg, json.dumps(msg.payload, sort_keys=True, default=repr)))
+            except Exception as e:  # noqa: BLE001
+                watched.append((msg, f"RAISES {type(e).__name__}"))
+
+        gwy.add_msg_handler(_watch)
     ops_at: dict[int, list[dict]] = {}
     for op in hist.get("ops", []):
         ops_at.setdefault(op["at"], []).append(op)
@@ -192,6 +203,17 @@ async def run_history(loop: vclock.VLoop, hist: dict) -> dict:
                 await asyncio.sleep(1.0)
             obs["probe"] = {"device_created": dev is not None, "temperature": temp, "send": sent,
                             "frames_written": sum(1 for _, f in port.tx_log[n0:] if " 313F " in f)}
+        if watched:
+            changed = []
+            for msg, then in watched:
+                try:
+                    now_ = json.dumps(msg.payload, sort_keys=True, default=repr)
+                except Exception as e:  # noqa: BLE001
+                    now_ = f"RAISES {type(e).__name__}"
+                if now_ != then:
+                    changed.append({"pkt": str(msg._pkt), "delivered": then[:600], "later": now_[:600]})
+            obs["payload_changes"] = changed
+            obs["n_watched"] = len(watched)
         obs["final_engine_state"] = engine_state(gwy)
         obs["schema"] = gwy.schema
         obs["n_devices"] = len(gwy.devices)
